@@ -20,10 +20,10 @@ S1small == {WithIdx(TrStk("OR", es), o) : es \in {<<>>, <<L>>, <<L, TrNil>>, <<T
 \* element alternatives of a depth-2 stack
 A2 == {L, TrNil, TrCnd(<<"k">>, "Eq", L)} \cup S1small \cup {TrCnd(<<"k">>, "Eq", s) : s \in S1small}
    \cup {[s EXCEPT !.form = f] : s \in {WithIdx(TrStk("OR", <<L, TrNil>>), <<FALSE, FALSE>>)}, f \in {"alias", "ptr"}}
-S2 == {WithIdx(TrStk("AND", es), o) : es \in SeqsUpTo(A2, Width), o \in IdxOpts}
+S2 == {[WithIdx(TrStk("AND", es), o) EXCEPT !.nn = b] : es \in SeqsUpTo(A2, Width), o \in IdxOpts, b \in BOOLEAN}
 
 \* depth 3: a depth-2 stack (or a Condition holding one) among leaves
-S2small == {WithIdx(TrStk("LIST", <<a, b>>), o) : a \in {L, TrNil}, b \in S1small \cup {TrCnd(<<"k">>, "Ge", s) : s \in S1small}, o \in {<<FALSE, FALSE>>, <<TRUE, TRUE>>}}
+S2small == {[WithIdx(TrStk("LIST", <<a, b>>), o) EXCEPT !.nn = (o[1])] : a \in {L, TrNil}, b \in S1small \cup {TrCnd(<<"k">>, "Ge", s) : s \in S1small}, o \in {<<FALSE, FALSE>>, <<TRUE, TRUE>>}}
 S3 == {WithIdx(TrStk("AND", <<a, b>>), o) : a \in {L, TrNil} \cup S1small, b \in S2small \cup {TrCnd(<<"c">>, "Eq", s) : s \in S2small}, o \in {<<FALSE, FALSE>>, <<TRUE, TRUE>>}}
 
 Cases == CASE FAMILY = "d1" -> S1 [] FAMILY = "d2" -> S2 [] FAMILY = "d3" -> S3
@@ -40,7 +40,7 @@ Spec == Init /\ [][Next]_cs
 Laws == \A i \in 1..Len(Paths) : TraverseSpec(cs, Paths[i], <<>>) = IndexDescent(cs, Paths[i])
         /\ TraverseSpec(cs, <<>>, <<>>) = TvFail
 
-Res(r) == [ok |-> r.ok, addr |-> r.addr]
+Res(r) == [ok |-> r.ok, addr |-> r.addr, note |-> ""]      \* note: what the harness has to say about the returned VALUE (foreign, of another type than stored, non-nil on failure)
 Emit == OUT = "" \/
         Serialize(ToJson([in |-> cs, arg |-> Paths, exp |-> [i \in 1..Len(Paths) |-> Res(TraverseSpec(cs, Paths[i], <<>>))]]) \o "\n",
                   OUT, [format |-> "TXT", charset |-> "UTF-8", openOptions |-> <<"WRITE", "CREATE", "APPEND">>]).exitValue = 0
